@@ -40,7 +40,7 @@ vf::Outcome run_case(const Case& c, const vf::Options& o)
    if (p == "C05") fl.fill_at_creation = true;
    fl.bulk_limit = int(o.get("bulk", 640));
    World w(fl, Findings{p, &out});
-   if (p == "C02" || p == "C09" || p == "C14" || p == "C15" || p == "C06" || p == "C05") w.counters["nest_qualified"] = 1;
+   if (p == "C01" || p == "C02" || p == "C09" || p == "C14" || p == "C15" || p == "C06" || p == "C05") w.counters["nest_qualified"] = 1;
    if (p == "C07") w.counters["small_universe"] = 1;
    const Profile& prof = profile(c.profile);
 
